@@ -35,14 +35,14 @@ func (m *Machine) codecGet() *codecState {
 
 // findMessage locates the generated message struct (the one declaring XXX_unrecognized)
 // inside the struct of type st at obj/idx, descending through embedded fields.
-func (m *Machine) findMessage(t types.Type, obj *Object, idx int) (types.Type, *types.Struct, int, bool) {
+func (m *Machine) findMessage(t types.Type, obj *Object, idx int) (types.Type, *types.Struct, *Object, int, bool) {
 	st, ok := t.Underlying().(*types.Struct)
 	if !ok {
-		return nil, nil, 0, false
+		return nil, nil, nil, 0, false
 	}
 	for i := 0; i < st.NumFields(); i++ {
 		if st.Field(i).Name() == "XXX_unrecognized" {
-			return t, st, idx, true
+			return t, st, obj, idx, true
 		}
 	}
 	off := 0
@@ -53,18 +53,17 @@ func (m *Machine) findMessage(t types.Type, obj *Object, idx int) (types.Type, *
 			if pt, isP := ft.Underlying().(*types.Pointer); isP {
 				p := obj.cells[idx+off].(Ptr)
 				if p.obj != nil {
-					if nt, ns, ni, ok := m.findMessage(pt.Elem(), p.obj, p.idx); ok {
-						_ = ni
-						return nt, ns, ni, true
+					if nt, ns, no, ni, ok := m.findMessage(pt.Elem(), p.obj, p.idx); ok {
+						return nt, ns, no, ni, true
 					}
 				}
-			} else if nt, ns, ni, ok := m.findMessage(ft, obj, idx+off); ok {
-				return nt, ns, ni, true
+			} else if nt, ns, no, ni, ok := m.findMessage(ft, obj, idx+off); ok {
+				return nt, ns, no, ni, true
 			}
 		}
 		off += m.ncells(f.Type())
 	}
-	return nil, nil, 0, false
+	return nil, nil, nil, 0, false
 }
 
 // pbCopy deep-copies a message struct into proto3 normal form.
@@ -149,13 +148,13 @@ func (m *Machine) codecMarshal(msg Iface, record bool) (Slice, int) {
 	if p.obj == nil {
 		abortf("codec stub: proto.Marshal of nil message")
 	}
-	named, st, idx, found := m.findMessage(pt.Elem(), p.obj, p.idx)
+	named, st, mobj, idx, found := m.findMessage(pt.Elem(), p.obj, p.idx)
 	if !found {
 		abortf("codec stub: %s is not a generated message", msg.t)
 	}
 	n := m.ncells(named)
 	count := 0
-	form := m.pbCopy(st, p.obj.cells[idx:idx+n], nil, &count)
+	form := m.pbCopy(st, mobj.cells[idx:idx+n], nil, &count)
 	N := bodyLen(count)
 	if !record {
 		return Slice{}, N
@@ -182,10 +181,11 @@ func (m *Machine) codecUnmarshal(buf Slice, msg Iface) value {
 	if p.obj == nil {
 		abortf("codec stub: proto.Unmarshal into nil message")
 	}
-	named, st, idx, found := m.findMessage(pt.Elem(), p.obj, p.idx)
+	named, st, mobj, idx, found := m.findMessage(pt.Elem(), p.obj, p.idx)
 	if !found {
 		abortf("codec stub: %s is not a generated message", msg.t)
 	}
+	p = Ptr{obj: mobj, idx: idx}
 	n := m.ncells(named)
 	// Reset (golang/protobuf calls pb.Reset() first; for generated messages *m = T{})
 	z := make(Agg, n)
